@@ -14,7 +14,7 @@ GROUPS = {
  "H09": "src/lerax/env/mujoco/walker2d.py, hopper.py, ant.py, humanoid.py, half_cheetah.py, reacher.py, pusher.py, base_mujoco.py (all under src/lerax/env/mujoco/)",
  "H10": "src/lerax/callback/logging/callback.py, src/lerax/benchmark/__init__.py, src/lerax/utils.py, src/lerax/env/unitree/g1/gait.py, src/lerax/env/unitree/g1/randomize.py, src/lerax/env/unitree/g1/base_g1.py",
 }
-T = open("/verif/tools/refactor_prompt_template.txt").read()
+T = open("/verif/tools/refactor_prompt_template.txt" if tag != "S" else "/verif/tools/refactor_prompt_template2.txt").read()
 for gid, files in GROUPS.items():
     wt = f"/tmp/wt{tag}_{gid}"
     if not os.path.isdir(wt):
